@@ -6,22 +6,32 @@ location", with
     arithmetic node (LP64) -- a result that leaves the range is an *event* (signed overflow / unsigned wrap) recorded
     at that node, after which the value is the whole range of the type (sound continuation);
   * branch refinement on comparisons of tracked locations with intervals (through value-preserving promotions);
+    `c != k` with k strictly inside splits the state in two;
   * trace partitioning: states that disagree on the exact value of a live local that currently holds a single value
-    (loop counters such as `max_digits`, flags such as `sign`/`negative`, a boundary test `value == limit`) are kept
-    apart, so a counted loop is unrolled abstractly and `if (c == 0) throw` after it removes the last iteration;
-    more than CAP partitions at a block, or more than WIDEN_AFTER growing joins of one partition, collapse / widen
-    to the bounds of the type (termination);
+    (loop counters such as `max_digits`, flags such as `sign`/`negative`, a boundary test `value == limit`) or on the
+    sign of a location that excludes 0 (the two halves of a NUL test) are kept apart, so a counted loop is unrolled
+    abstractly and `if (c == 0) throw` after it removes the last iteration; a loop counter (stepped only by ++/--/+=c/-=c
+    inside loops) known within <= SPLIT_MAX values is split into single values; more than CAP partitions at a block
+    collapse; a partition at the target of a back edge that keeps growing is widened to the bounds of the type
+    (termination);
   * liveness of locals (dead counters do not split states);
   * tracked locations: integer locals / parameters ('v' keys) and pure lvalue expressions over pointers and local
     records such as `*str`, `**s`, `str[5]`, `tm.tm_mon` ('e' keys, keyed by canonical text, killed when a variable
-    they mention is written, when something is stored through a pointer, or at any call that is not known pure).
+    they mention is written, when an integer is stored through a pointer, or at a call that may store to integer
+    memory -- decided by a syntactic summary of the callee's body, unknown callee = may store);
+  * helpers: a callee that is one `return <condition over its parameters>;` refines the arguments of `if (is_digit(c))`
+    by its own condition; a callee that throws for some arguments (`check_range(x)`) is interpreted with the argument
+    intervals and what holds at its normal returns is learned for the arguments (two levels deep).
+
+Aliasing assumption (stated in the property's evidence): a character read through an input pointer is not the storage
+of a local variable, of a field of a local record, or of the pointer itself.
 
 Over-approximation only: every concrete execution (without UB before the point of interest) is covered by some
 abstract state, so "no event at node n" and "operand interval inside the target range" are proofs for all inputs;
 an event is a *potential* violation whose concrete witness is stated by the rule that reports it.
 
 Hooks let a rule replace the effect of one call (e.g. assume strtoll returned its saturation value and left
-`*end` == 0) and mark the state, so that what is reachable afterwards can be read off `returns`.
+`*end` == 0) and mark the state, so that what is reachable afterwards can be read off `returns` / `throws`.
 """
 from collections import deque
 
@@ -125,6 +135,13 @@ def writes_int_memory(fb, usr, depth=0):
     return res
 
 
+class _Everything:
+    """`here` of a condition that is evaluated as a whole (a callee's return expression)"""
+
+    def __contains__(self, x):
+        return True
+
+
 class Result:
     def __init__(self):
         self.events = {}      # node id -> (kind, math interval, operand intervals) of the first event at the node
@@ -132,16 +149,20 @@ class Result:
         self.reached = set()  # element ids executed
         self.returns = []     # (node id | None for falling off the end of a void function, marks dict, value interval or None)
         self.throws = []      # (node id, marks dict)
+        self.return_states = []    # (node id | None, marks, value, state) when the interpreter was created with keep=True
         self.marked_reached = {}   # element id -> set of frozenset(marks.items()) seen when it executed (only marked states)
         self.truncated = False
         self.collapsed = set()
 
 
 class Interp:
-    def __init__(self, fn, hooks=None, init=None):
+    def __init__(self, fn, hooks=None, init=None, depth=0, keep=False):
         self.fn = fn
         self.hooks = hooks or {}
         self.init = init or {}
+        self.depth = depth        # nesting of callee summaries
+        self.keep = keep          # record the state at every normal return, never drop dead variables
+        self._dead = False
         self.kr = {}          # key -> type range
         self.edeps = {}       # e-key text -> (deps frozenset, pointer_based)
         self._lv_cache = {}
@@ -685,6 +706,21 @@ class Interp:
                             m = fn.nodes.get(x)
                         if m is not None and m.get('k') == 'var' and m.get('vk') in ('local', 'param'):
                             self.kill_var(st, m['d'])
+                summ = self._call_summary(n, st, vals) if k == 'call' else None
+                if summ is not None:
+                    rv, refs, normal = summ
+                    if not normal:
+                        self._dead = True
+                        return type_range(t)
+                    for (key, iv) in refs:
+                        if (key[0] == 'e' and key not in st) or (key[0] == 'v' and key[1] in self.escaped):
+                            continue        # unknown, just invalidated by the call itself, or reachable through a pointer
+                        cur = self.get(st, key) or iv
+                        lo, hi = max(cur[0], iv[0]), min(cur[1], iv[1])
+                        if lo <= hi:
+                            st[key] = (lo, hi)
+                    if rv is not None and type_range(t) is not None and inside(rv, type_range(t)):
+                        return rv
             return type_range(t)
         return type_range(t)
 
@@ -770,7 +806,14 @@ class Interp:
         if k == 'binop' and n.get('op') in ('&&', '||'):
             conj = (n['op'] == '&&') == sense
             if not conj:
-                return [dict(st)]
+                both = all(fn.strip(x, casts=False) in here or x in here for x in (n['lhs'], n['rhs']))
+                if not both:
+                    return [dict(st)]
+                # not (a && b)  ==  not a,  or  a and not b       (dually for ||)
+                outs = self.refine(n['lhs'], sense, st, vals, here)
+                for s in self.refine(n['lhs'], not sense, st, vals, here):
+                    outs.extend(self.refine(n['rhs'], sense, s, vals, here))
+                return outs
             outs = [dict(st)]
             for side in (n['lhs'], n['rhs']):
                 if fn.strip(side, casts=False) not in here and side not in here:
@@ -783,6 +826,10 @@ class Interp:
         if k == 'binop' and n.get('op') in self._NEG:
             op = n['op'] if sense else self._NEG[n['op']]
             return self._refine_cmp(op, n['lhs'], n['rhs'], None, st, vals)
+        if k == 'call' and 'cv' not in n:
+            r = self._refine_predicate_call(n, sense, st, vals)
+            if r is not None:
+                return r
         if k in ('var', 'member', 'index', 'unop', 'call', 'lit', 'assign'):
             if 'cv' in n:
                 try:
@@ -792,6 +839,127 @@ class Interp:
                     pass
             return self._refine_cmp('!=' if sense else '==', nid, None, (0, 0), st, vals)
         return [dict(st)]
+
+    # ------------------------------------------------------------------ helpers extracted into other functions
+    def _callee(self, n):
+        """The single small body of a resolved, non-virtual callee, or None."""
+        if self.depth >= 2 or n.get('virt') or not n.get('u') or self.fn.fb is None:
+            return None
+        bodies = [g for g in self.fn.fb.by_usr.get(n['u'], []) if g.has_cfg]
+        if len({g.pat for g in bodies}) != 1:
+            return None
+        g = bodies[0]
+        if g is self.fn or len(g.nodes) > 800 or len(g.params) != len(n.get('args', []) or []):
+            return None
+        return g
+
+    def _int_args(self, n, g, st, vals):
+        """[(param decl id, argument interval, argument storage key | None)] for by-value integer parameters that the
+        callee never writes."""
+        written = set()
+        for m in g.all_nodes():
+            lv = m['lhs'] if m.get('k') == 'assign' else m['sub'] if (m.get('k') == 'unop' and m.get('op') in ('++', '--', '&')) else None
+            if lv is not None:
+                x = g.nodes.get(g.strip(lv, casts=False))
+                if x is not None and x.get('k') == 'var':
+                    written.add(x['d'])
+        out = []
+        for p, a in zip(g.params, n.get('args', []) or []):
+            r = type_range(p['tC'])
+            if a is None or r is None or p['tC'].rstrip().endswith('&') or p['d'] in written:
+                continue
+            v = self.val(a, st, vals)
+            if v is None:
+                v = r
+            out.append((p['d'], v if inside(v, r) else r, self._through_casts(a, st, vals)))
+        return out
+
+    def _sub_interp(self, g, **kw):
+        it = Interp(g, depth=self.depth + 1, **kw)
+        return it
+
+    def _refine_predicate_call(self, n, sense, st, vals):
+        """`if (is_digit(*str))`: the callee is one `return <condition over its parameters>;` without side effects --
+        refine the arguments by the callee's own condition."""
+        g = self._callee(n)
+        if g is None:
+            return None
+        rets = [m for m in g.all_nodes() if m.get('k') == 'return']
+        if len(rets) != 1 or 'sub' not in rets[0]:
+            return None
+        for m in g.all_nodes():
+            k = m.get('k')
+            if k in ('assign', 'decl', 'throw', 'new', 'delete', 'lambda', 'construct') or (k == 'unop' and m.get('op') in ('++', '--')):
+                return None
+            if k == 'call' and 'cv' not in m and m.get('q') not in PURE_CALLS:
+                return None
+        args = self._int_args(n, g, st, vals)
+        if not args:
+            return None
+        sub = self._sub_interp(g)
+        gst = {}
+        for (d, v, _key) in args:
+            sub.kr.setdefault(('v', d), v)
+            gst[('v', d)] = v
+        outs = sub.refine(rets[0]['sub'], sense, gst, {}, _Everything())
+        if not outs:
+            return []
+        res = []
+        for o in outs[:16]:
+            s = dict(st)
+            ok = True
+            for (d, v, key) in args:
+                if key is None:
+                    continue
+                h = o.get(('v', d), v)
+                cur = self.get(s, key) or h
+                lo, hi = max(cur[0], h[0]), min(cur[1], h[1])
+                if lo > hi:
+                    ok = False
+                    break
+                s[key] = (lo, hi)
+            if ok and s not in res:
+                res.append(s)
+        if len(outs) > 16:
+            res.append(dict(st))
+        return res
+
+    _SUMMARY = {}
+
+    def _call_summary(self, n, st, vals):
+        """Guard helper `check(x)` (throws on some values): interval of the result and of each by-value integer
+        argument over the callee's *normal* returns.  -> (result interval | None, [(key, interval)], returns normally?)
+        or None when there is nothing to learn."""
+        g = self._callee(n)
+        if g is None or not any(m.get('k') == 'throw' or m.get('noret') for m in g.all_nodes()):
+            return None
+        args = self._int_args(n, g, st, vals)
+        if not args:
+            return None
+        ck = (g.usr, g.pat, tuple((d, v) for (d, v, _k) in args))
+        hit = Interp._SUMMARY.get(ck)
+        if hit is None:
+            sub = self._sub_interp(g, init={('v', d): v for (d, v, _k) in args}, keep=True)
+            for (d, v, _k) in args:
+                sub.kr.setdefault(('v', d), type_range(next(p['tC'] for p in g.params if p['d'] == d)))
+            sub.run()
+            if sub.res.truncated:
+                hit = ('unknown',)
+            else:
+                rv = None
+                per = {}
+                for (_nid, _mk, v, rst) in sub.res.return_states:
+                    if v is not None:
+                        rv = v if rv is None else hull(rv, v)
+                    for (d, v0, _k) in args:
+                        x = rst.get(('v', d), v0)
+                        per[d] = x if d not in per else hull(per[d], x)
+                hit = ('ok', rv, per, bool(sub.res.return_states))
+            Interp._SUMMARY[ck] = hit
+        if hit[0] != 'ok':
+            return None
+        _t, rv, per, normal = hit
+        return rv, [(key, per[d]) for (d, _v, key) in args if key is not None and d in per], normal
 
     def _refine_cmp(self, op, lhs, rhs, rconst, st, vals):
         a = self.val(lhs, st, vals)
@@ -847,8 +1015,9 @@ class Interp:
                 heapq.heappush(heap, (-b, seq[0], sg))
 
         def arrive(b, st):
-            lv = self.live.get(b, ())
-            st = {k: v for k, v in st.items() if k[0] != 'v' or k[1] in lv}
+            if not self.keep:
+                lv = self.live.get(b, ())
+                st = {k: v for k, v in st.items() if k[0] != 'v' or k[1] in lv}
             for k, v in st.items():
                 if k[0] == 'v' and k[1] in self.counters and 0 < v[1] - v[0] <= SPLIT_MAX:
                     for c in range(v[0], v[1] + 1):
@@ -931,6 +1100,8 @@ class Interp:
                     if v is None and 'sub' in n:
                         v = self.val(n['sub'], st, vals)
                     res.returns.append((e, mk, v))
+                    if self.keep:
+                        res.return_states.append((e, mk, v, dict(st)))
                     dead = True
                     break
                 if k in ('call', 'construct') and n.get('noret'):
@@ -953,13 +1124,22 @@ class Interp:
                         vals[e] = v0
                         continue
                 vals[e] = self.eval(e, st, vals)
+                if self._dead:              # a callee that cannot return normally for these arguments
+                    self._dead = False
+                    res.throws.append((e, self.marks(st)))
+                    dead = True
+                    break
             if dead:
                 continue
             succs = blk['succs']
-            if b == fn.exit or not succs:
+            if b == fn.exit:
+                # `return` and `throw` end their path above: what arrives here fell off the end of a void function
+                res.returns.append((None, self.marks(st), None))
+                if self.keep:
+                    res.return_states.append((None, self.marks(st), None, dict(st)))
                 continue
-            if fn.exit in succs and not any(fn.nodes[e].get('k') == 'return' for e in elems):
-                res.returns.append((None, self.marks(st), None))     # control falls off the end (void function)
+            if not succs:
+                continue
             if 'cond' in blk and len(succs) == 2 and blk.get('termcls') != 'SwitchStmt' and isinstance(blk.get('cond'), int):
                 ec = effective_cond(fn, blk)
                 for idx, sense in ((0, True), (1, False)):
